@@ -381,25 +381,23 @@ def _tasks(tier, seed):
 
   def add(kind, tid, **arg):
     arg.update({"kind": kind, "seed": rng.randrange(1 << 30)})
-    tasks.append({"fn": "vf.checks.c10:child", "arg": arg, "id": tid, "timeout": 1500})
+    tasks.append({"fn": "vf.checks.c10:child", "arg": arg, "id": tid, "timeout": 5400})
 
+  # (alphabet, n classes, max bases, families per task)
   if tier == "quick":
-    fam_specs = [("full", 3, 3), ("distinct", 4, 3)]
-    stub_specs = [("full", 3, 3), ("distinct", 4, 3)]
+    fam_specs = [("full", 3, 3, 3), ("distinct", 4, 3, 3)]
+    stub_specs = [("full", 3, 3, 3), ("distinct", 4, 3, 3)]
     rnd_src, rnd_stub, rnd_count = 14, 8, 22
-    fam_per_task = {"full": 3, "distinct": 3}
   else:
-    fam_specs = [("full", 3, 3), ("full", 4, 2), ("distinct", 5, 3)]
-    stub_specs = [("full", 3, 3), ("distinct", 4, 3), ("distinct", 5, 2)]
+    fam_specs = [("full", 3, 3, 2), ("full", 4, 3, 4), ("distinct", 5, 3, 6), ("distinct", 6, 2, 16)]
+    stub_specs = [("full", 3, 3, 2), ("full", 4, 2, 8), ("distinct", 5, 3, 6)]
     rnd_src, rnd_stub, rnd_count = 160, 80, 32
-    fam_per_task = {"full": 3, "distinct": 3}
   for path, specs in (("src", fam_specs), ("stub", stub_specs)):
-    for alphabet, n, mb in specs:
+    for alphabet, n, mb, per_task in specs:
       fams = _families(n, mb, alphabet)
-      # smaller class counts are covered as prefixes, plus explicitly the 1- and 2-class families
       info[f"{path}: families {alphabet} alphabet, <= {n} classes, <= {mb} bases"] = {
           "prefixes": len(fams), "leaf_base_lists_each": len(fams[0][1]) if fams else 0}
-      for b, chunk in enumerate(_chunks(fams, fam_per_task[alphabet])):
+      for b, chunk in enumerate(_chunks(fams, per_task)):
         if path == "src":
           add("src", f"src/{alphabet}{n}/{b}", families=chunk)
         else:
@@ -430,6 +428,11 @@ def run(tier, seed):
             "classes); non-trivial = the closure contains a class with >=2 bases; distinct by fingerprint."))
   tasks, info = _tasks(tier, seed)
   ck.extra["exhaustive_slices"] = info
+  sub = float(os.environ.get("VERIF_SUBSAMPLE", "1"))
+  if sub < 1:   # development aid only: run a seeded fraction of the batches
+    r = random.Random(f"{PID}-{seed}-subsample")
+    tasks = [t for t in tasks if r.random() < sub]
+    ck.extra["SUBSAMPLED_RUN_fraction_of_batches"] = sub
   mon = {"calls": 0, "evaluations": 0, "ok_merges": 0, "error_merges": 0, "max_result_len": 0}
   mon_skipped = {}
   errkinds = {}
